@@ -57,14 +57,20 @@ Sorted(S) == IF S = {} THEN <<>> ELSE LET m == CHOOSE i \in S : \A j \in S : i <
 \* outermost VALID nodes (no VALID proper ancestor) whose text is made of whole original lines, in pre-order
 RECURSIVE HasValidAnc(_, _)
 HasValidAnc(nodes, i) == LET p == nodes[i].par IN IF p = 0 THEN FALSE ELSE nodes[p].st = "VALID" \/ HasValidAnc(nodes, p)
-RECURSIVE Outer(_, _, _)
-Outer(nodes, i, acc) == IF i > Len(nodes) THEN acc
-                        ELSE Outer(nodes, i + 1, IF nodes[i].st = "VALID" /\ nodes[i].whole /\ nodes[i].l0 > 0 /\ ~HasValidAnc(nodes, i)
-                                                 THEN Append(acc, i) ELSE acc)
 \* smallest q >= p such that out[q .. q+n-1] = block, 0 if none
 RECURSIVE Find(_, _, _)
 Find(out, block, p) == IF p + Len(block) - 1 > Len(out) THEN 0
                        ELSE IF SubSeq(out, p, p + Len(block) - 1) = block THEN p ELSE Find(out, block, p + 1)
+\* Exemption: a node whose lines occur a second time in the original file (`end do`-like statements, `implicit none` of
+\* several routines, repeated assignments) is not judged: its place in the output cannot be told from that of its twin,
+\* and a missing block would be "found" in the twin's text.
+UniqueIn(orig, n) == n.l0 <= n.l1 /\ n.l1 <= Len(orig) /\ Find(orig, SubSeq(orig, n.l0, n.l1), n.l0 + 1) = 0
+                     /\ Find(orig, SubSeq(orig, n.l0, n.l1), 1) = n.l0
+RECURSIVE Outer(_, _, _, _)
+Outer(orig, nodes, i, acc) ==
+  IF i > Len(nodes) THEN acc
+  ELSE Outer(orig, nodes, i + 1, IF nodes[i].st = "VALID" /\ nodes[i].whole /\ nodes[i].l0 > 0 /\ ~HasValidAnc(nodes, i) /\ UniqueIn(orig, nodes[i])
+                                 THEN Append(acc, i) ELSE acc)
 \* match the blocks of the nodes idx[k..] from position p of the output; result: the nodes whose block is not found
 \* (a block that is not found is skipped, so that one regenerated node does not hide the others)
 RECURSIVE Match(_, _, _, _, _, _, _)
@@ -75,7 +81,7 @@ Match(orig, nodes, out, idx, k, p, miss) ==
        ELSE Pick({IF q = 0 THEN Match(orig, nodes, out, idx, k + 1, p, Append(miss, idx[k]))
                   ELSE Match(orig, nodes, out, idx, k + 1, q + (n.l1 - n.l0 + 1), miss) :
                      q \in {Find(out, SubSeq(orig, n.l0, n.l1), p)}})
-NotEmitted(orig, nodes, out) == Match(orig, nodes, out, Outer(nodes, 1, <<>>), 1, 1, <<>>)
+NotEmitted(orig, nodes, out) == Match(orig, nodes, out, Outer(orig, nodes, 1, <<>>), 1, 1, <<>>)
 
 \* ---- ChildrenOnly: new-tree nodes marked INVALID_CHILDREN whose own expressions were changed
 ChildrenOnlyBad(nodes, own) == {i \in DOMAIN nodes : nodes[i].st = "INVALID_CHILDREN" /\ nodes[i].oid # 0 /\ nodes[i].oid \in own}
